@@ -305,6 +305,33 @@ theorem writeRows_frame (off s w : Nat) (hws : w ≤ s) (n : Nat) :
         by_contra hcon
         have := hj 0 (j - (off + b)) (by omega) (by omega)
         omega
+/-! ### `Buf2::new_with` -/
+
+/-- The `(x, y)` counters of `Buf2::new_with`'s closure walk the cells in row-major order. -/
+theorem newWithSeq_spec (w : Nat) (hw : 0 < w) (f : Nat → Nat → α) :
+    ∀ (n x y : Nat), x < w →
+      newWithSeq w f n x y = (List.range n).map (fun k => f ((x + k) % w) (y + (x + k) / w)) := by
+  intro n
+  induction n with
+  | zero => intro x y _; rfl
+  | succ n ih =>
+    intro x y hx
+    rw [List.range_succ_eq_map, List.map_cons, List.map_map]
+    simp only [newWithSeq, Nat.add_zero, Nat.mod_eq_of_lt hx, Nat.div_eq_of_lt hx]
+    congr 1
+    by_cases he : x + 1 = w
+    · rw [if_pos he, ih 0 (y + 1) hw]
+      apply List.map_congr_left
+      intro k _
+      simp only [Function.comp, Nat.zero_add]
+      have e : x + (k + 1) = k + w := by omega
+      rw [e, Nat.add_mod_right, Nat.add_div_right _ hw]
+      congr 1; omega
+    · rw [if_neg he, ih (x + 1) y (by omega)]
+      apply List.map_congr_left
+      intro k _
+      simp only [Function.comp]
+      rw [show x + 1 + k = x + (k + 1) by omega]
 end
 
 end Retro.Buf
